@@ -73,6 +73,13 @@ def _rnd_text(rng):
             ws = "".join(rng.choice(" \t") if rng.random() < 0.2 else " " for _ in range(ind))
             lines.append(ws + rng.choice(["a", "b", "c d", "e  f ", "x ", "q\r"]))
             continue
+        if r < 0.12:
+            # rows carrying characters that `str.splitlines` (but not the offside rule: lines end at LF only) treats as
+            # line ends: a lone CR, VT, FF, FS/GS/RS, NEL, LS, PS inside the row
+            ind = off + unit * depth
+            lines.append(" " * ind + rng.choice(["d\x0bq", "m\x0cn", "p\rq", "u\u2028v", "w\x85z", "s\x1ct", "k\x1dl",
+                                                  "i\x1ej", "g\u2029h", "\ra"]))
+            continue
         ind = off + unit * depth
         ws = " " * ind if rng.random() < 0.9 else "\t" * ind
         lines.append(ws + rng.choice(["a", "b", "c d", "a", "zz", "e !f", "g#"]))
